@@ -102,3 +102,15 @@ func init() {
 		Prepare:     hTest("props/lint", "^TestC30", hOpts{QShards: 8, TShards: 16, QTimeout: 8 * time.Minute, TTimeout: 60 * time.Minute}),
 	}
 }
+
+func init() {
+	specs["C28"] = &spec{
+		LevelText:   "rapid-generated (old, new) schema pairs: new = old under 1..3 edits drawn from the safe grammar, the unsafe grammar and further edits the documents do not classify (rename a field, flip int/Int boxedness, change an explicit tag, swap adjacent fields, change a constant or field-valued template argument). The verdict is computed as cmd/tlgen does. Whenever the linter accepts, the harness' independent TL1 reference codec (refcodec: generator, encoder, decoder over the schema model) draws 6 values per old top-level constructor/function whose masks use only bits meaningful in the old schema and requires: the value encodes under the new schema, to the same bytes (for appended function arguments: followed by zero words for the appended masks), and the old bytes decode under the new schema completely and re-encode unchanged.",
+		LevelNote:   "Trusted: refcodec (written from the format documents, self-checked by round trip on generated schemas; it shares no code with /repo) and schemagen.",
+		Technique:   "property-based testing (rapid): differential oracle between two schema versions through an independent reference codec, conditioned on the linter's verdict",
+		Rule:        "non-trivial iff the linter accepted a pair with at least one effective edit and values were compared; distinct by (schema, edits, value seed); classes accepted / rejected / not-a-pair show how many pairs reach the oracle",
+		Assumptions: []string{"old values use only mask bits the old schema gives meaning to (as the statement says)"},
+		Floors:      []floor{{"accepted-with-edits", 0.15, ""}},
+		Prepare:     hTest("props/lint", "^TestC28", hOpts{QShards: 8, TShards: 16, QTimeout: 8 * time.Minute, TTimeout: 60 * time.Minute}),
+	}
+}
